@@ -55,7 +55,10 @@ def body_call(eng, args, kwargs, st, node, plain=False):
             kind = 'return'
         st1 = st.fork()
         val = V('obj', oid='bodyval!%s!%d' % (kind, next(eng.counter)))
-        st1.trace.append(('body', kind, val))
+        # what the body sees while it runs: who the library's current thread is, and its own state
+        cur = st1.objs.get('main', {}).get('current_tt')
+        state = st1.objs.get('self', {}).get('state')
+        st1.trace.append(('body', kind, val, cur, state))
         if kind in ('yield', 'return'):
             outs.append((st1, val))
         else:
@@ -201,18 +204,32 @@ def next_on_raise(c):
         return z3.BoolVal(False)
     done = post.state == STATES['Done']
     if kind in ('StopIteration', 'StopStream'):
+        clk_ = post.v('_clock')
         return z3.And(done, z3.BoolVal(ecls == 'StopStream'),
-                      z3.BoolVal(post.v('_iterator').k == 'none'))
+                      z3.BoolVal(post.v('_iterator').k == 'none'),
+                      z3.BoolVal(post.v('_last_value').k == 'none'),                      # an ended routine keeps no value
+                      z3.BoolVal(clk_.k == 'obj' and clk_.oid == 'SystemClock'))          # and is back on the default clock
     if kind in ('ValueError', 'KeyboardInterrupt'):
         return z3.And(done, z3.BoolVal(ecls == kind))
     return z3.BoolVal(False)        # yield / YieldAndReset / AlwaysYield must not raise
+
+
+def seen_by_body(c):
+    """while the body runs, the routine IS the library's current thread (that is how code inside it finds its
+    clock and logical time) and its state is Running"""
+    ev = [e for e in c.trace if e[0] == 'body']
+    if not ev or len(ev[-1]) < 5:
+        return z3.BoolVal(not ev)
+    cur, state = ev[-1][3], ev[-1][4]
+    ok = cur is not None and cur.k == 'ref' and cur.oid == 'self' and state is not None and state.k == 'int'
+    return z3.And(z3.BoolVal(bool(ok)), state.z == STATES['Running']) if ok else z3.BoolVal(False)
 
 
 def frame(c):
     if not ran(c):
         return restored(c)
     post = c.post.self
-    return z3.And(restored(c), z3.BoolVal(post.v('parent').k == 'none'),
+    return z3.And(restored(c), z3.BoolVal(post.v('parent').k == 'none'), seen_by_body(c),
                   # logical time handed over from the caller before the body ran
                   post._m_seconds == c.pre.main.current_tt._seconds)
 
@@ -243,6 +260,23 @@ def guard(new_state, from_states=None):
 
 
 RUNNING = lambda c: c.pre.self.state == STATES['Running']
+
+
+def released(meth):
+    """stop / reset let go of the generator (a later next() starts the function again / finds it ended) and put
+    the routine back on the default clock; stop also forgets the last value"""
+    def f(c):
+        post = c.post.self
+        if meth == 'pause':
+            return z3.BoolVal(True)
+        clk_ = post.v('_clock')
+        ok = post.v('_iterator').k == 'none' and clk_.k == 'obj' and clk_.oid == 'SystemClock'
+        if meth == 'stop':
+            ok = ok and post.v('_last_value').k == 'none'
+        return z3.BoolVal(bool(ok))
+    return f
+
+
 FRAMES = {'pause': ['state'], 'stop': ['state', '_iterator', '_last_value', '_clock'],
           'reset': ['state', '_iterator', '_clock']}
 for meth, post in (('pause', guard(STATES['Paused'], [STATES['Init'], STATES['Suspended']])),
@@ -255,7 +289,7 @@ for meth, post in (('pause', guard(STATES['Paused'], [STATES['Init'], STATES['Su
              modifies=[('self', f) for f in FRAMES[meth]],
              requires=lambda c: z3.And(c.pre.self.state >= 1, c.pre.self.state <= 5),
              raises={'RoutineException': RUNNING},
-             ensures=[('transition', post)],
+             ensures=[('transition', post), ('released', released(meth))],
              on_raise=[('refused-without-change', lambda c: z3.And(
                  c.post.self.state == c.pre.self.state,
                  z3.BoolVal(not c.st.ghost.get('written'))))],
